@@ -200,7 +200,9 @@ C02R(e) ==
   \cup UnionOver(Len(e.items), LAMBDA i :
        LET it == e.items[i] IN
        Tag(~Has(it, "oob"), "oob")
-       \cup Tag(~Has(it, "alloc") \/ it.alloc <= AllocBound(Len(e.src)), "alloc")
+       \* the input length of a BoundedReader over a stream is its byte limit (its Ensure can check nothing else)
+       \cup Tag(~Has(it, "alloc") \/ it.alloc <= AllocBound(IF e.rk.b /\ e.rk.k \in {"sstream", "fstream", "fd"}
+                                                                THEN Max(Len(e.src), e.rk.lim) ELSE Len(e.src)), "alloc")
        \cup (IF Has(it, "st2")
              \* "still valid to ... read into again": the second read of a valid encoding must succeed and
              \* consume it (what it yields is C11's statement, not C02's)
